@@ -487,6 +487,44 @@ func runC20(r *mon.Run) {
 		}
 	})
 	r.Parallel("relations", r.N(250000, 20000000), func(t *mon.T) { relationsCase(t, gen.Context(t.Rng)) })
+	// The exported Rounder.Round, called with a rounder other than the
+	// context's own: it must round the way Context.Round does on a context
+	// whose Rounding is that rounder (same value, same conditions, the
+	// context's own exponent limits). Results below the normal range are left
+	// out: there the unchanged library lets the context's mode decide.
+	r.Parallel("rounder-receiver", r.N(40000, 3000000), func(t *mon.T) {
+		rr := t.Rng
+		c := gen.Context(rr)
+		x := gen.Finite(rr, c)
+		if x.IsZero() || x.Adj() < c.Emin {
+			t.Skip("zero-or-subnormal-operand")
+			return
+		}
+		m2 := dec.Modes[rr.Intn(8)]
+		if m2 == c.Mode {
+			m2 = dec.Modes[(rr.Intn(7)+1+indexOf(dec.Modes, c.Mode))%8]
+		}
+		c2 := c
+		c2.Mode = m2
+		var d1, d2 apd.Decimal
+		res1 := apd.Rounder(m2).Round(br.Context(c, 0), &d1, br.ToApd(x), true)
+		res2, err2 := br.Context(c2, 0).Round(&d2, br.ToApd(x))
+		t.EvalN(2)
+		t.Count("rounder-receiver")
+		if err2 != nil {
+			t.Skip("context-round-error")
+			return
+		}
+		g1, g2 := br.FromApd(&d1), br.FromApd(&d2)
+		if meaningful(g1) != meaningful(g2) || res1 != res2 {
+			t.Fail("modes-inconsistent", map[string]interface{}{"op": "Rounder.Round", "ctx": c.String(), "receiver": m2, "x": x.String(),
+				"got": meaningful(g1) + " [" + br.FlagNames(res1) + "]", "context_round_with_that_mode": meaningful(g2) + " [" + br.FlagNames(res2) + "]"})
+		}
+		if res1&apd.Inexact != 0 {
+			t.Nontrivial(fmt.Sprintf("rr|%s|%s|%s", c, m2, x.FullString()))
+		}
+	})
+	r.Require("rounder-receiver", 20000)
 	r.Serial("pinned", func(t *mon.T) {
 		c := dec.Ctx{P: 3, Emin: -9, Emax: 9}
 		x, _ := dec.Parse("-15E-12")
